@@ -38,3 +38,52 @@ Proof. rewrite Z.lor_spec. replace (Z.testbit DOTMATCH 6) with true by reflexivi
 
 Lemma testbit_land_mask_6 f : Z.testbit (Z.land f FLAG_MASK) 6 = Z.testbit f 6.
 Proof. rewrite Z.land_spec. replace (Z.testbit FLAG_MASK 6) with true by reflexivity. apply andb_true_r. Qed.
+
+(* ---- conditions `negb (Z.eqb (Z.land f <literal>) 0)` of the translated code, as testbit ---- *)
+Lemma cond_bit f k : 0 <= k -> negb (Z.eqb (Z.land f (2 ^ k)) 0) = Z.testbit f k.
+Proof. intros. rewrite land_pow2_testbit by assumption. apply negb_involutive. Qed.
+
+Lemma cond_1 f : negb (Z.eqb (Z.land f 1) 0) = Z.testbit f 0. Proof. exact (cond_bit f 0 ltac:(lia)). Qed.
+Lemma cond_2 f : negb (Z.eqb (Z.land f 2) 0) = Z.testbit f 1. Proof. exact (cond_bit f 1 ltac:(lia)). Qed.
+Lemma cond_8 f : negb (Z.eqb (Z.land f 8) 0) = Z.testbit f 3. Proof. exact (cond_bit f 3 ltac:(lia)). Qed.
+Lemma cond_1024 f : negb (Z.eqb (Z.land f 1024) 0) = Z.testbit f 10. Proof. exact (cond_bit f 10 ltac:(lia)). Qed.
+Lemma cond_32768 f : negb (Z.eqb (Z.land f 32768) 0) = Z.testbit f 15. Proof. exact (cond_bit f 15 ltac:(lia)). Qed.
+Lemma cond_65536 f : negb (Z.eqb (Z.land f 65536) 0) = Z.testbit f 16. Proof. exact (cond_bit f 16 ltac:(lia)). Qed.
+Lemma cond_131072 f : negb (Z.eqb (Z.land f 131072) 0) = Z.testbit f 17. Proof. exact (cond_bit f 17 ltac:(lia)). Qed.
+
+(* mask 3 = CASE | IGNORECASE *)
+Lemma cond_3 f : negb (Z.eqb (Z.land f 3) 0) = Z.testbit f 0 || Z.testbit f 1.
+Proof.
+  destruct (Z.testbit f 0) eqn:H0; destruct (Z.testbit f 1) eqn:H1; cbn [orb].
+  - apply negb_true_iff, Z.eqb_neq. intro E.
+    assert (X : Z.testbit (Z.land f 3) 0 = false) by (rewrite E; apply Z.bits_0).
+    rewrite Z.land_spec, H0 in X. discriminate.
+  - apply negb_true_iff, Z.eqb_neq. intro E.
+    assert (X : Z.testbit (Z.land f 3) 0 = false) by (rewrite E; apply Z.bits_0).
+    rewrite Z.land_spec, H0 in X. discriminate.
+  - apply negb_true_iff, Z.eqb_neq. intro E.
+    assert (X : Z.testbit (Z.land f 3) 1 = false) by (rewrite E; apply Z.bits_0).
+    rewrite Z.land_spec, H1 in X. discriminate.
+  - apply negb_false_iff, Z.eqb_eq. apply Z.bits_inj'. intros n Hn. rewrite Z.land_spec, Z.bits_0.
+    destruct (Z.eq_dec n 0) as [->|N0]; [rewrite H0; reflexivity|].
+    destruct (Z.eq_dec n 1) as [->|N1]; [rewrite H1; reflexivity|].
+    replace (Z.testbit 3 n) with false; [apply andb_false_r|].
+    symmetry. change 3 with (Z.ones 2). apply Z.ones_spec_high. lia.
+  Qed.
+
+Ltac bitconds :=
+  rewrite ?cond_3, ?cond_1, ?cond_2, ?cond_8, ?cond_1024, ?cond_32768, ?cond_65536, ?cond_131072.
+(* testbit of a bit expression at a concrete index *)
+Ltac bitspec := repeat (rewrite ?Z.land_spec, ?Z.lor_spec, ?Z.lxor_spec).
+
+(* compute testbit of closed numerals *)
+Ltac ctb :=
+  repeat match goal with
+  | |- context [Z.testbit (Zpos ?p) (Zpos ?k)] =>
+      let v := eval vm_compute in (Z.testbit (Zpos p) (Zpos k)) in
+      change (Z.testbit (Zpos p) (Zpos k)) with v
+  | |- context [Z.testbit (Zpos ?p) Z0] =>
+      let v := eval vm_compute in (Z.testbit (Zpos p) Z0) in
+      change (Z.testbit (Zpos p) Z0) with v
+  end.
+Ltac bits := repeat (bitconds; bitspec; ctb; cbn [andb orb xorb negb]).
